@@ -180,6 +180,154 @@ theorem key_roundtrip (db key : List Char) (h : ':' ∉ db) :
       simp [splitColon, hc, ih hdb]
   simp [parseKey, this]
 
+/-! ### Key accessors of `Base` (SetKey / ResetKey / Key / KeyIsSet / DatabaseName / DatabaseKey) -/
+
+/-- Splitting at the first colon and joining with a colon gives the key back, for every key with a colon. -/
+theorem parseKey_join (s : List Char) (h : ':' ∈ s) : (parseKey s).1 ++ ':' :: (parseKey s).2 = s := by
+  have aux : ∀ s : List Char, ':' ∈ s → ∃ rest, splitColon s = ((splitColon s).1, some rest) ∧ (splitColon s).1 ++ ':' :: rest = s := by
+    intro s
+    induction s with
+    | nil => intro h; simp at h
+    | cons c cs ih =>
+      intro h
+      by_cases hc : c = ':'
+      · subst hc; exact ⟨cs, by simp [splitColon], by simp [splitColon]⟩
+      · have hin : ':' ∈ cs := by
+          rcases List.mem_cons.mp h with h1 | h1
+          · exact absurd h1.symm hc
+          · exact h1
+        obtain ⟨rest, e1, e2⟩ := ih hin
+        refine ⟨rest, ?_, ?_⟩
+        · simp only [splitColon, hc, if_false]; rw [e1]
+        · simp only [splitColon, hc, if_false, List.cons_append]; rw [e2]
+  obtain ⟨rest, e1, e2⟩ := aux s h
+  unfold parseKey
+  rw [e1]
+  exact e2
+
+/-- Setting `db:key` on a record without key and reading it back: name, key and full key are the ones set. -/
+theorem setKey_roundtrip (db key : List Char) (h : ':' ∉ db) :
+    (Base.fresh.setKey (db ++ ':' :: key)).databaseName = db ∧
+    (Base.fresh.setKey (db ++ ':' :: key)).databaseKey = key ∧
+    (Base.fresh.setKey (db ++ ':' :: key)).key = db ++ ':' :: key ∧
+    (Base.fresh.setKey (db ++ ':' :: key)).keyIsSet = decide (db ≠ []) := by
+  have hp := key_roundtrip db key h
+  simp [Base.setKey, Base.fresh, Base.keyIsSet, Base.databaseName, Base.databaseKey, Base.key, hp]
+
+/-- "The key may only be set once and future calls to SetKey will be ignored." -/
+theorem setKey_once (b : Base) (h : b.keyIsSet = true) (k : List Char) : b.setKey k = b := by
+  simp [Base.setKey, h]
+
+/-- `ResetKey` clears both parts; afterwards `SetKey` works as on a new record. -/
+theorem resetKey_unsets (b : Base) :
+    b.resetKey.keyIsSet = false ∧ b.resetKey.databaseName = [] ∧ b.resetKey.databaseKey = [] ∧
+    ∀ k, b.resetKey.setKey k = Base.fresh.setKey k := by
+  simp [Base.resetKey, Base.keyIsSet, Base.databaseName, Base.databaseKey, Base.fresh]
+
+/-- What `Unwrap` does with the key (`r.SetKey(wrapped.Key())`): a record without key takes over the full
+    key of any other record unchanged — also when the database name itself contains a colon or is empty
+    (the two parts may then be split differently; `Key()` is the same). -/
+theorem key_transfer (r b : Base) (hr : r.keyIsSet = false) : (r.setKey b.key).key = b.key := by
+  have hin : ':' ∈ b.key := by simp [Base.key]
+  have := parseKey_join b.key hin
+  simp only [Base.setKey, hr]
+  simpa [Base.key] using this
+
+/-! ### `Marshal` and `MarshalRecord`: layout relation and error exits -/
+
+/-- `Wrapper.Marshal(r, dsd.AUTO)`: nothing for a deleted record, else the format byte and the data. -/
+theorem wrapperMarshal_auto (m : Meta) (f : UInt8) (d : Bytes) :
+    wrapperMarshal (some m) f d 0 = .ok (if m.deleted > 0 then none else some (f :: d)) := by
+  unfold wrapperMarshal
+  by_cases hd : m.deleted > 0
+  · simp [hd]
+  · simp [hd, fAUTO]
+
+/-- An explicit format must be the wrapper's own format; any other is refused (for live records). -/
+theorem wrapperMarshal_format (m : Meta) (hlive : ¬ m.deleted > 0) (wf format : UInt8) (d : Bytes)
+    (hf : format.toNat ≠ fAUTO) :
+    wrapperMarshal (some m) wf d format = if format = wf then .ok (some (wf :: d)) else .error .formatMismatch := by
+  unfold wrapperMarshal
+  by_cases he : format = wf
+  · simp [hlive, he]
+  · simp [hlive, he, hf]
+
+/-- `MarshalRecord = [version 1] ++ length-prefixed meta section ++ Marshal(AUTO)` for wrappers … -/
+theorem wrapper_marshalRecord_layout (m : Meta) (f : UInt8) (d : Bytes) :
+    ∃ ds, wrapperMarshal (some m) f d 0 = .ok ds ∧
+      wrapperMarshalRecord (some m) f d = .ok ([1] ++ (prependLength (metaSection m) ++ ds.getD [])) ∧
+      wrapperMarshalRecord (some m) f d = .ok (marshalWrapper m f d) := by
+  refine ⟨_, wrapperMarshal_auto m f d, ?_, ?_⟩
+  · simp only [wrapperMarshalRecord]
+    have h0 : (UInt8.ofNat fAUTO) = 0 := rfl
+    rw [h0, wrapperMarshal_auto]
+    simp only [marshalRecord_flat]
+    simp [prependLength]
+  · simp only [wrapperMarshalRecord, marshalWrapper, wrapperDataSection]
+    have h0 : (UInt8.ofNat fAUTO) = 0 := rfl
+    rw [h0, wrapperMarshal_auto]
+    by_cases hd : m.deleted > 0 <;> simp [hd]
+
+/-- … and for typed records, `dump` being `dsd.Dump(self, ·)`: if the JSON dump is `[JSON] ++ json` the
+    result is the layout `marshalBase` describes (which the round-trip theorems are about); a deleted record
+    never reaches the codec. -/
+theorem base_marshalRecord_layout (m : Meta) (dump : Nat → Option Bytes) (json : Bytes)
+    (hdump : dump fJSON = some (pack8 fJSON ++ json)) :
+    baseMarshalRecord (some m) dump = .ok (marshalBase m json) ∧
+    baseMarshalRecord (some m) dump
+      = .ok ([1] ++ (prependLength (metaSection m) ++ (if m.deleted > 0 then [] else pack8 fJSON ++ json))) := by
+  have e : baseMarshalRecord (some m) dump = .ok (marshalBase m json) := by
+    simp only [baseMarshalRecord, baseMarshal, marshalBase]
+    by_cases hd : m.deleted > 0 <;> simp [hd, hdump]
+  refine ⟨e, ?_⟩
+  rw [e, marshalBase, marshalRecord_flat]
+  simp [prependLength]
+
+theorem base_marshalRecord_deleted (m : Meta) (hd : m.deleted > 0) (dump : Nat → Option Bytes) :
+    baseMarshalRecord (some m) dump = .ok (marshalBase m []) := by
+  simp [baseMarshalRecord, baseMarshal, marshalBase, hd]
+
+/-- The error exits: a record without metadata cannot be serialised by any of the four functions; a failing
+    codec fails `Marshal` and `MarshalRecord` of a live typed record (no partial output). -/
+theorem marshal_error_exits (wf format : UInt8) (d : Bytes) (dump : Nat → Option Bytes) (fmt : Nat) :
+    wrapperMarshal none wf d format = .error .missingMeta ∧ wrapperMarshalRecord none wf d = .error .missingMeta ∧
+    baseMarshal none dump fmt = .error .missingMeta ∧ baseMarshalRecord none dump = .error .missingMeta ∧
+    (∀ m : Meta, ¬ m.deleted > 0 → dump fJSON = none → baseMarshalRecord (some m) dump = .error .codec) ∧
+    (∀ m : Meta, ¬ m.deleted > 0 → dump fmt = none → baseMarshal (some m) dump fmt = .error .codec) := by
+  refine ⟨rfl, rfl, rfl, rfl, ?_, ?_⟩
+  · intro m hl hd; simp [baseMarshalRecord, baseMarshal, hl, hd]
+  · intro m hl hd; simp [baseMarshal, hl, hd]
+
+/-! ### `Unwrap` on the real path -/
+
+/-- A typed record serialised with `Base.MarshalRecord`, parsed with `NewRawWrapper(db, key, ·)` and unwrapped
+    into a new record of its type gives the original back: same value (JSON codec as a parameter with its
+    round-trip contract), the same metadata, the same key. -/
+theorem unwrap_roundtrip {α : Type} (enc : α → Bytes) (dec : Bytes → Option α) (hcodec : ∀ v, dec (enc v) = some v)
+    (m : Meta) (wf : m.InRange) (hlive : ¬ m.deleted > 0) (v : α) (db key : List Char)
+    (r : Typed α) (hr : r.base.keyIsSet = false) :
+    ∃ w r', newRawWrapper (marshalBase m (enc v)) = .ok w ∧
+      unwrap (fun f d => if f = fJSON then dec d else none) (some (⟨db, key⟩, w)) r = .ok r' ∧
+      r'.val = v ∧ r'.md = some m ∧ r'.base.key = db ++ ':' :: key := by
+  obtain ⟨w, hw, hm, hf, hd⟩ := base_roundtrip enc dec hcodec m wf hlive v
+  refine ⟨w, ⟨r.base.setKey (Base.key ⟨db, key⟩), some w.md, v⟩, hw, ?_, rfl, by simp [hm], ?_⟩
+  · simp [unwrap, hf, hd]
+  · exact key_transfer r.base ⟨db, key⟩ hr
+
+/-- `Unwrap` fails (and returns no record) for a first argument that is not a wrapper and for data the codec
+    rejects; a target that already has a key keeps it (`SetKey` is ignored), as the code is written. -/
+theorem unwrap_exits {α : Type} (load : Nat → Bytes → Option α) (wb : Base) (w : Wrapper) (r : Typed α) :
+    unwrap load none r = .error .notWrapper ∧
+    (load w.format w.data = none → unwrap load (some (wb, w)) r = .error .load) ∧
+    (∀ v, load w.format w.data = some v → r.base.keyIsSet = true →
+      unwrap load (some (wb, w)) r = .ok ⟨r.base, some w.md, v⟩) := by
+  refine ⟨rfl, ?_, ?_⟩
+  · intro h; simp [unwrap, h]
+  · intro v h hk; simp [unwrap, h, setKey_once r.base hk]
+
+/-- `Meta.Duplicate` copies all six fields. -/
+theorem meta_duplicate (m : Meta) : m.duplicate = m := rfl
+
 /-! ### Non-vacuity -/
 
 example : Meta.InRange ⟨-(2^63), 2^63 - 1, 1700000000, 0, true, false⟩ := by decide
@@ -189,5 +337,12 @@ example : newRawWrapper (marshalWrapper ⟨-1, 5, 0, 0, true, false⟩ 74 [0x7b,
   simpa using this
 example : newRawWrapper [1, 0xff, 0xff, 0xff, 0xff, 0xff, 0xff, 0xff, 0xff, 0xff, 0x01, 71] = .err (.metaBlock "nodata") := by
   simp [newRawWrapper, unpack8, getNextBlock, unpack64, uvarint, uvarintAux, Err.str]
+example : (Base.fresh.setKey "core:config/x:y".toList).databaseKey = "config/x:y".toList := by decide
+example : ((Base.fresh.setKey "a:b".toList).setKey "c:d".toList).key = "a:b".toList := by decide
+example : ((Base.fresh.setKey "nocolon".toList)).key = "nocolon:".toList := by decide
+example : (Base.fresh.setKey (Base.key ⟨"a:b".toList, "c".toList⟩)) = ⟨"a".toList, "b:c".toList⟩ := by decide
+example : wrapperMarshal (some ⟨0, 0, 0, 0, false, false⟩) 74 [1] 67 = .error .formatMismatch := by decide
+example : wrapperMarshalRecord (some ⟨1, 2, 3, 4, false, true⟩) 74 [1, 2] = .ok (marshalWrapper ⟨1, 2, 3, 4, false, true⟩ 74 [1, 2]) :=
+  (wrapper_marshalRecord_layout _ _ _).choose_spec.2.2
 
 end PB.C08
